@@ -39,6 +39,7 @@ func main() {
 		{"ChildrenGen.v", genChildren},
 		{"KmpGen.v", genKmp},
 		{"SnapSmallGen.v", genSnapSmall},
+		{"KmpDedupGen.v", genKmpDedup},
 		{"TmsData.v", genTmsData},
 		{"CliGen.v", genCli},
 	}
